@@ -23,13 +23,12 @@ def nonlinear_solve_b(mechanicalEnergy, settings, rdata, v):
     
     hess_vec_func = lambda w: mechanicalEnergy.hessian_vec(Uu, w)
     
-    results,_ = EquationSolver.solve_trust_region_minimization(0.0*Uu,
-                                                               v,
-                                                               hess_vec_func,
-                                                               mechanicalEnergy.apply_precond,
-                                                               lambda x: x,
-                                                               np.inf,
-                                                               settings)
+    results = EquationSolver.solve_trust_region_minimization(0.0*Uu,
+                                                             v,
+                                                             hess_vec_func,
+                                                             mechanicalEnergy.apply_precond,
+                                                             np.inf,
+                                                             settings)
     
     lam = results[0]
     return (np.zeros_like(Uu)*v[0], mechanicalEnergy.vec_jacobian_p2(Uu, lam)[0])
@@ -69,7 +68,6 @@ def nonlinear_solve_with_state_b(mechanicalEnergy, settings, rdata, v):
                                                              v,
                                                              hess_vec_func,
                                                              mechanicalEnergy.apply_precond,
-                                                             lambda x: x,
                                                              np.inf,
                                                              settings)
     lam = results[0]
